@@ -292,8 +292,14 @@ impl<'de> SerdeDeserializer<'de> for &mut Deserializer<'de> {
     }
 
     fn deserialize_char<V: Visitor<'de>>(self, visitor: V) -> Result<V::Value> {
-        match self.term {
-            OwnedTerm::String(s) => {
+        // a char is serialised as a string, and a string is a binary on the wire
+        let text = match self.term {
+            OwnedTerm::String(s) => Some(s.as_str()),
+            OwnedTerm::Binary(b) => str::from_utf8(b).ok(),
+            _ => None,
+        };
+        match text {
+            Some(s) => {
                 let mut chars = s.chars();
                 if let Some(c) = chars.next()
                     && chars.next().is_none()
